@@ -2,6 +2,7 @@
 package c06
 
 import (
+	"math"
 	"fmt"
 	"strings"
 	"testing"
@@ -597,6 +598,104 @@ func ptrProp(c PtrCase, r *pbt.R) error {
 }
 
 // ---------------------------------------------------------------------------
+// floats: element values that are not equal to themselves (NaN) or equal to the zero value
+
+type fStack interface {
+	Push(float64)
+	Pop() float64
+	Peek() float64
+	Search(float64) bool
+	Size() int
+}
+
+// floatProp replays PtrCase operations (op >= 0: Push of tab[op%4], otherwise Pop) on stacks of float64 whose elements
+// are drawn from {NaN, 0, 1.5, +Inf}. A NaN is an element like any other for Push, Pop, Peek and Size (compared here by
+// bit pattern); Search(x) is true exactly when a held element == x, so it never finds a NaN.
+func floatProp(c PtrCase, r *pbt.R) error {
+	if len(c.Ops) > 200 {
+		return nil
+	}
+	tab := []float64{math.NaN(), 0, 1.5, math.Inf(1)}
+	names := []string{"NaN", "0", "1.5", "+Inf"}
+	same := func(a, b float64) bool { return math.Float64bits(a) == math.Float64bits(b) }
+	show := func(ops []int) string {
+		var sb []string
+		for _, op := range ops {
+			if op >= 0 {
+				sb = append(sb, "Push("+names[op%len(tab)]+")")
+			} else {
+				sb = append(sb, "Pop")
+			}
+		}
+		return "[" + strings.Join(sb, " ") + "]"
+	}
+	run := func(name string, st fStack, model []float64, linked bool) error {
+		for i, op := range c.Ops {
+			switch {
+			case op >= 0:
+				v := tab[op%len(tab)]
+				st.Push(v)
+				model = append(model, v)
+			default:
+				got := st.Pop()
+				if len(model) == 0 {
+					if got != 0 {
+						return fmt.Errorf("%s of float64, ops %s: Pop on an empty stack returned %v", name, show(c.Ops[:i+1]), got)
+					}
+				} else {
+					if !(linked && r.KF(kfPopBelow)) && !same(got, model[len(model)-1]) {
+						return fmt.Errorf("%s of float64, ops %s: Pop returned %v, want the element pushed last, %v", name, show(c.Ops[:i+1]), got, model[len(model)-1])
+					}
+					model = model[:len(model)-1]
+				}
+			}
+			if st.Size() != len(model) {
+				return fmt.Errorf("%s of float64, ops %s: Size() = %d, want %d", name, show(c.Ops[:i+1]), st.Size(), len(model))
+			}
+			top := 0.0
+			if len(model) > 0 {
+				top = model[len(model)-1]
+			}
+			if got := st.Peek(); !same(got, top) {
+				return fmt.Errorf("%s of float64, ops %s: Peek() = %v, want the element pushed last, %v (0 when empty)", name, show(c.Ops[:i+1]), got, top)
+			}
+			for j, v := range append(append([]float64(nil), tab...), 2.5) {
+				held := false
+				for _, q := range model {
+					held = held || q == v
+				}
+				if got := st.Search(v); got != held {
+					return fmt.Errorf("%s of float64, ops %s: Search(%v) = %v, want %v (value #%d; held %v)", name, show(c.Ops[:i+1]), v, got, held, j, model)
+				}
+			}
+		}
+		return nil
+	}
+	if err := run("Stack", stack.New[float64](), nil, false); err != nil {
+		return err
+	}
+	// the linked stack is created with its mandatory first element: once a NaN, once the zero value
+	if err := run("LStack(first NaN)", stack.NewLinked(tab[0]), []float64{tab[0]}, true); err != nil {
+		return err
+	}
+	if err := run("LStack(first 0)", stack.NewLinked(tab[1]), []float64{tab[1]}, true); err != nil {
+		return err
+	}
+	nan := false
+	for _, op := range c.Ops {
+		nan = nan || (op >= 0 && op%len(tab) == 0)
+	}
+	pops := 0
+	for _, op := range c.Ops {
+		if op < 0 {
+			pops++
+		}
+	}
+	r.NonTrivialIf(nan || pops > 0, "a NaN was pushed or the stack created around a NaN / zero element was popped")
+	return nil
+}
+
+// ---------------------------------------------------------------------------
 // bulk: deep stacks (hundreds to thousands of elements), observed at the phase boundaries
 
 // BulkCase: Phases are (kind, count): 0 = Push count elements (a running counter 1, 2, 3, ...: every element unique, the zero
@@ -760,6 +859,22 @@ func TestProp(t *testing.T) {
 			},
 			Gen:        func(s pbt.Src, _ bool) PtrCase { return PtrCase{Ops: pbt.Seq(s, 0, 40, func(s pbt.Src) int { return s.Intn(6) - 2 })} },
 			Prop:       ptrProp,
+			OutOfEnum:  func(c PtrCase, th bool) bool { return len(c.Ops) > 5 },
+			RapidQuick: 200, RapidThorough: 3000,
+		},
+		&pbt.Check[PtrCase]{
+			Name: "floats",
+			Rule: "both stacks instantiated with float64, elements from {NaN, 0, 1.5, +Inf} (the linked stack created once around a NaN and once around the zero value): Push / Pop; after every call Size, Peek (bit pattern: a NaN is an element like any other) and Search of the four values and of a never-pushed one (true exactly when a held element == it, so never for NaN). " +
+				"Enumerated: every sequence of up to 4 (thorough 5) operations over {Push of each value, Pop}; random: up to 40. Non-trivial = a NaN was pushed or a Pop reached the element the linked stack was created with.",
+			Enum: func(s pbt.Src, thorough bool) PtrCase {
+				n := 4
+				if thorough {
+					n = 5
+				}
+				return PtrCase{Ops: pbt.Seq(s, 0, n, func(s pbt.Src) int { return s.Intn(5) - 1 })}
+			},
+			Gen:        func(s pbt.Src, _ bool) PtrCase { return PtrCase{Ops: pbt.Seq(s, 0, 40, func(s pbt.Src) int { return s.Intn(6) - 2 })} },
+			Prop:       floatProp,
 			OutOfEnum:  func(c PtrCase, th bool) bool { return len(c.Ops) > 5 },
 			RapidQuick: 200, RapidThorough: 3000,
 		},
